@@ -3,11 +3,12 @@
 
 An abstract project is a JSON-able dict (it is the replay case):
 
-  name      project / module name
+  name      project directory (and module name unless "module" is given)
+  module    optional: module name; projects of a sequence share it, so equal import paths name different packages
   layout    "inside" | "inside-root" | "sibling" | "parent" | "outside" | "outside-rel" | "ownmod"   (where mage is started, see start())
   odd       True: contains shapes the property sentence does not decide or known deviations;
             only model-vs-implementation is compared, the oracle is not asked
-  packages  [{"dir": "imp/pa", "pkg": "pa", "funcs": [{"name","sig"}], "ns": [{"name", "methods":[{"name","sig"}]}],
+  packages  [{"dir": "imp/pa", "pkg": "pa", "funcs": [{"name","sig"[,"file": "more"]}] ("file": the function lives in <file>.go), "ns": [{"name", "methods":[{"name","sig"}]}],
               "default": name|None, "aliases": {alias: func}, "unexported": [...], "nontarget": bool, "nested": dir|None}]
   local     {"funcs": [...], "ns": [...], "default": name|None}
   files     [{"name": "mf_0.go", "decls": [decl]}]
@@ -99,7 +100,8 @@ def defid(path, recv, name):
 
 
 def module_path(proj):
-    return "example.test/" + proj["name"] + ("mf" if proj["layout"] == "ownmod" else "")
+    # "module": two projects in different directories may be the SAME module path (sequence stream)
+    return "example.test/" + (proj.get("module") or proj["name"]) + ("mf" if proj["layout"] == "ownmod" else "")
 
 
 def import_path(proj, pk):
@@ -145,18 +147,25 @@ def body(sig, did):
     return '(ctx context.Context) error { return probe.Call("%s") }' % did
 
 
-def render_targets(out, pk, path, need):
+def render_targets(out, pk, path, need, part=None):
     for f in pk["funcs"]:
+        if f.get("file") != part:
+            continue
         out.append("// %s does something." % f["name"])
         out.append("func %s%s\n" % (f["name"], body(f["sig"], defid(path, "", f["name"]))))
+    if part is not None:
+        return
     for n in pk["ns"]:
         out.append("type %s mg.Namespace\n" % n["name"])
         for m in n["methods"]:
             out.append("func (%s) %s%s\n" % (n["name"], m["name"], body(m["sig"], defid(path, n["name"], m["name"]))))
 
 
-def uses(pk):
-    sigs = [f["sig"] for f in pk["funcs"]] + [m["sig"] for n in pk["ns"] for m in n["methods"]]
+def uses(pk, part=None):
+    if part is not None:
+        sigs = [f["sig"] for f in pk["funcs"] if f.get("file") == part]
+        return {"ctx": "ctx" in sigs, "mg": False, "probe": bool(sigs)}
+    sigs = [f["sig"] for f in pk["funcs"] if not f.get("file")] + [m["sig"] for n in pk["ns"] for m in n["methods"]]
     return {"ctx": "ctx" in sigs, "mg": bool(pk["ns"]), "probe": bool(sigs)}
 
 
@@ -188,6 +197,17 @@ def render_package(proj, pk):
     if pk.get("nontarget"):
         out.append("// NotATarget has a parameter type mage does not support.\nfunc NotATarget(f float64) float64 { return f }\n")
         out.append("type plain struct{}\n\n// Method of an ordinary type.\nfunc (plain) Method() {}\n")
+    return "\n".join(out)
+
+
+def render_extra_file(proj, pk, part):
+    """<part>.go of an imported package: the functions that were added to it later"""
+    u = uses(pk, part)
+    out = ["package %s\n" % pk["pkg"]]
+    imps = (['"context"'] if u["ctx"] else []) + (['"%s/probe"' % module_path(proj)] if u["probe"] else [])
+    if imps:
+        out.append("import (\n\t" + "\n\t".join(imps) + "\n)\n")
+    render_targets(out, pk, import_path(proj, pk), u, part)
     return "\n".join(out)
 
 
@@ -273,6 +293,8 @@ def render_project(proj, repo, probe_go):
     files[j(modroot, "probe/probe.go")] = probe_go
     for pk in proj["packages"]:
         files[j(modroot, pk["dir"], pk["pkg"] + ".go")] = render_package(proj, pk)
+        for part in sorted({f["file"] for f in pk["funcs"] if f.get("file")}):
+            files[j(modroot, pk["dir"], part + ".go")] = render_extra_file(proj, pk, part)
     for i, f in enumerate(proj["files"]):
         files[j(mfdir, f["name"])] = render_magefile(proj, f, i == 0)
     if proj["layout"] in ("sibling",):
